@@ -45,7 +45,17 @@ class Binomial(DiscreteRandomVariable):
     def pmf(self, x):
         if x < 0 or x > self.n:
             return 0
-        return choose(self.n, x) * self.p**x * (1-self.p)**(self.n-x)
+        try:
+            return choose(self.n, x) * self.p**x * (1-self.p)**(self.n-x)
+        except OverflowError:
+            # choose(n, x) leaves the float range long before the product
+            # does (only with a float p and 0 < x < n): use log space.
+            if not 0 < self.p < 1:
+                return 0.0
+            return math.exp(math.lgamma(self.n+1) - math.lgamma(x+1)
+                            - math.lgamma(self.n-x+1)
+                            + x*math.log(self.p)
+                            + (self.n-x)*math.log1p(-self.p))
 
     def mean(self):
         return self.n * self.p
